@@ -76,6 +76,8 @@ func TemplateFromCert(ctx context.Context, cert *x509.Certificate, pubKey any) (
 
 	template.Subject.CommonName = subjectCn
 	template.Subject.SerialNumber = subjectSerial.String()
+	// The certificate serial number is the same as the subject's, as in the Google template.
+	template.SerialNumber = subjectSerial
 	template.NotBefore = timestamp
 	template.NotAfter = timestamp.Add(time.Duration(styp.SignValidDays) * 24 * time.Hour)
 	return &template, nil
